@@ -59,12 +59,59 @@ theorem gate_iff (fl : List Nat) (pfx d : Bytes) :
 
 /-! ## 2. the emission paths -/
 
+/-! ### 2a. the translated method bodies pass the syntactic safety checks
+
+  `Gen.sendto_prog`, `Gen.datagram_received_prog`, `Gen.exit_data_prog`, `Gen.on_data_prog` (GenPaths.lean) are the bodies of
+  TunnelExitSocket.sendto / datagram_received and TunnelCommunity.exit_data / on_data as decision trees, regenerated from
+  the source on every run.  The checks are decided by kernel evaluation on whatever the code says now; their soundness is
+  proved once, for ALL programs (next group), so a re-ordering of independent tests or an extracted alias keeps this green
+  while a dropped or weakened test turns it red. -/
+
+/-- in `sendto`, every path to `transport.sendto` has tested is_allowed, the null address and the transport -/
+theorem sendto_prog_safe : safeSock false false false Gen.sendto_prog = true := sendto_prog_safe'
+/-- in `datagram_received`, every path to `tunnel_data` has tested is_allowed -/
+theorem datagram_received_prog_safe : safeSock false false false Gen.datagram_received_prog = true :=
+  datagram_received_prog_safe'
+/-- in `exit_data`, every path to `enable()` has tested that the source IP is the hop's IP -/
+theorem exit_data_prog_safe : safeExit false Gen.exit_data_prog = true := exit_data_prog_safe'
+/-- in `on_data`, every path to `exit_data` has tested that the destination is not ("0.0.0.0", 0) -/
+theorem on_data_prog_safe : safeOnData false Gen.on_data_prog = true := on_data_prog_safe'
+
+/-- the checks are not vacuous: dropping the gate, the null test or the hop test is rejected -/
+example : safeSock false false false (.ite .hasTransport (.act .transportSend .done) (.act .queueAppend .done)) = false := by
+  decide
+example : safeSock false false false
+    (.ite .allowed (.ite .hasTransport (.act .transportSend .done) (.act .queueAppend .done)) .done) = false := by decide
+example : safeExit false (.ite .knownCircuit (.act .enable (.act .sendto .done)) .done) = false := by decide
+example : safeOnData false (.act .exitData .done) = false := by decide
+/-- … and an equivalent re-ordering of sendto's independent tests is accepted -/
+example : safeSock false false false
+    (.ite .destIsNull .done (.ite .isDomain (.ite .allowed (.act .startResolve .done) .done)
+      (.ite .hasTransport (.ite .allowed (.act .transportSend .done) .done) (.ite .allowed (.act .queueAppend .done) .done))))
+    = true := by decide
+
+/-! ### 2b. soundness of the checks, for every program -/
+
+/-- ANY socket-level program that passes `safeSock` only outputs resolutions, emissions that passed the gate and the
+    null test through an open transport, and tunnelled datagrams that passed the gate -/
+theorem safeSock_sound (e : Env) (p : Prog) (s : Sock) (h : safeSock false false false p = true) :
+    ∀ o ∈ (interpSock e p s).2, SockOut e.fl e.pfx s o :=
+  interpSock_out e p s false false false (by simp) (by simp) (by simp) h
+
+/-- ANY exit_data program that passes `safeExit` enables a socket only when the cell's source IP is the socket's hop IP,
+    keeps its identity and transports, and only outputs what `sendto` outputs -/
+theorem safeExit_sound (e : XEnv) (p : Prog) (x : Sock) (h : safeExit false p = true) :
+    ∃ x', (interpExit e p (some x)).1 = some x' ∧ ExitSpec e x x' (interpExit e p (some x)).2 :=
+  interpExit_some e p x false (by simp) h
+
+/-! ### 2c. the property over all histories -/
+
 /-- one step, ANY state (reachable or not): whatever reaches `transport.sendto` or is sent back into the tunnel is
     allowed by the configured flags, and no emission goes to 0.0.0.0:0.  Covers the direct path, packets flushed from
     the queue and packets re-entering `sendto` after DNS resolution. -/
 theorem step_policy (st : St) (ev : Ev) : ∀ o ∈ (step st ev).2, OutOK st.flags st.pfx o := by
   intro o hmem
-  rcases step_out st ev o hmem with ⟨c, k, rfl⟩ | ⟨s', _, hso⟩
+  rcases step_weak st ev o hmem with ⟨c, k, rfl⟩ | ⟨s', hso⟩
   · trivial
   · rcases hso with (⟨h, p, rfl⟩ | ⟨v, data, dest, rfl, hg, hn, _⟩) | ⟨payload, src, rfl, hg⟩
     · trivial
